@@ -594,6 +594,8 @@ pub struct SdList {
     pub name_ranks: Vec<Option<usize>>,
     /// the object also has members that stay visible (partly hidden objects arise under Custom)
     pub has_visible: bool,
+    /// per entry: what the hidden member's value is (0 scalar, 1 object, 2 array); None for a decoy
+    pub kinds: Vec<Option<u8>>,
 }
 
 #[derive(Default, Debug)]
@@ -794,6 +796,7 @@ fn walk(
                         has_visible: names.iter().filter(|k| !(p.is_empty() && ["iss", "iat", "exp"].contains(&k.as_str()))).count() > entries.iter().filter(|e| e.is_some()).count(),
                         entries,
                         name_ranks,
+                        kinds: list_entries.iter().map(|e| e.as_ref().and_then(|n| m.get(n)).map(|v| if v.is_object() { 1 } else if v.is_array() { 2 } else { 0 })).collect(),
                     });
                 }
             }
